@@ -103,6 +103,25 @@ impl Monitor for C20 {
                     }
                 }
             }
+            // three-level shapes: the context is any one-argument construct, E = `A op B` over operand
+            // shapes (squares in every spelling, negations, calls) with values whose arithmetic rounds or
+            // overflows - a context that looks at the shape of its operand instead of its value is caught
+            // (seeded change C20-r9: sqrt of a sum of two explicit squares computed by hypot)
+            for (c, e) in shape_family(ev) {
+                if !c.contains("{h}") || c == "{h}" || !ctx.mine() {
+                    continue;
+                }
+                let s_hole = c.replace("{h}", "@");
+                let s_e = c.replace("{h}", &format!("({})", e));
+                let case = Case { ev, kind: "substitute".into(), exprs: vec![s_e, s_hole, e.clone()], phs: vec![Val::zero(ev)], extra: "shape".into() };
+                ctx.check(&case, &|c, st| {
+                    let v = self.judge(c, st);
+                    if let Verdict::Pass { .. } = v {
+                        st.inc("shape_triples_equal");
+                    }
+                    v
+                });
+            }
             // E = one construct repeated many times, in a few one-level contexts: the context must see
             // the value of E whatever E's size or nesting
             for (fam, k, e) in repetitions(ev, rep_cap(&ctx.config) - 2) {
